@@ -97,13 +97,13 @@ theorem decodeW_tol (t : Tables) (w : Wrapper) (hov : t.decodeOverridden = true)
       | code fs => simp only []; rw [applyEffs_tol, hb]
 
 /-- the first frame is longer than a repeat marker can be -/
-theorem firstFrame_length (t : Tables) (w : Wrapper) (tol : Match.Tol) (htol : tol.ok) (hw : wfAll t tol = true)
+theorem firstFrame_length (t : Tables) (w : Wrapper) (tol : Match.Tol) (htol : tol.ok) (hw : EngineRT t tol)
     (p : Packet) (hS : C01Spec t w p) (u : String → Int) (hu : ∀ n, 0 ≤ u n) (f : List Int)
     (hf : firstFrame t w u = .ok f) : t.leadIn.length + 2 ≤ f.length := by
   obtain ⟨envU, henvU⟩ : ∃ e : Env, e = { params := u, fields := fun _ => none, last := fun _ => none } := ⟨_, rfl⟩
   have hu' : ∀ n, 0 ≤ envU.params n := by rw [henvU]; exact hu
   have hitems := packetItems_eq t p envU hu' hS.args hS.fields
-  obtain ⟨frame, hbuild, _, _, _, c, _, _, _, hlen⟩ := engine_roundtrip t tol htol hw (t.params.map (kwVal p envU)) (by simp)
+  obtain ⟨frame, hbuild, _, _, _, c, _, _, _, hlen⟩ := hw (t.params.map (kwVal p envU)) (by simp)
   rw [fieldsOf_map] at hbuild
   rw [firstFrame_of_packet t w u p hS.first, ← henvU] at hf
   simp only [buildTraced, hitems, bind, Except.bind] at hf
@@ -112,7 +112,7 @@ theorem firstFrame_length (t : Tables) (w : Wrapper) (tol : Match.Tol) (htol : t
   rw [← hf]; exact hlen
 
 /-- **C06 at wrapper level** (full-frame repeat style): the whole key-held sequence on one fresh decoder -/
-theorem C06_wrapper_spec (t : Tables) (w : Wrapper) (tol : Match.Tol) (htol : tol.ok) (hw : wfAll t tol = true)
+theorem C06_wrapper_spec (t : Tables) (w : Wrapper) (tol : Match.Tol) (htol : tol.ok) (hw : EngineRT t tol)
     (h1 : c01OK t w = true) (h3 : c03OK t w = true) (h6 : c06OK t w = true) (h7 : c07OK t w = true) (h8 : c08OK t w = true)
     (u : String → Int) (hu : ∀ n, 0 ≤ u n) (hr : ∀ ep ∈ t.encodeParams, u ep.1 ≤ ep.2.2) (rc : Nat) (hrc : rc < 3) :
     ∃ fs, encodeFrames t w u rc = .ok fs ∧ fs ≠ [] ∧
